@@ -771,8 +771,11 @@ def gen_quanti(rng, n, y, k):
         r = rng.random()
         if cols and r < 0.35:  # derived from an earlier column: correlated cluster
             base = rng.choice(cols)
-            how = rng.choice(["copy", "affine", "neg", "cube", "noisy", "coarse", "noisy"])
-            if how == "copy":
+            how = rng.choice(["copy", "affine", "neg", "cube", "noisy", "coarse", "noisy", "sum", "sum", "sum"])
+            if how == "sum":  # non-transitive correlation: a, a + b, b
+                other = rng.choice(cols)
+                c = [NAN if isnan(v) or isnan(w) else v + w for v, w in zip(base, other)]
+            elif how == "copy":
                 c = list(base)
             elif how == "affine":
                 a, b = rng.choice([2, 3, 0.5, 10]), rng.choice([0, 1, -7])
@@ -811,9 +814,12 @@ def gen_quali(rng, n, y, k, allow_nan):
         r = rng.random()
         if cols and r < 0.35:
             base = rng.choice(cols)
-            how = rng.choice(["copy", "rename", "merge", "noisy"])
+            how = rng.choice(["copy", "rename", "merge", "noisy", "cross", "cross"])
             levels = sorted({v for v in base if not isnan(v)})
-            if how == "copy" or not levels:
+            if how == "cross":  # non-transitive association: a, a x b, b
+                other = rng.choice(cols)
+                c = [NAN if isnan(v) or isnan(w) else v + "_" + w for v, w in zip(base, other)]
+            elif how == "copy" or not levels:
                 c = list(base)
             elif how == "rename":
                 mp = {v: "r" + v for v in levels}
